@@ -101,6 +101,8 @@ def programs():
     """yield (name, program(s) per run selector, input variants)"""
     chain = T.prog([T.fn("na", ["e0"], ["a0"]), T.fn("nb", ["a0"], ["b0"]), T.fn("nc", ["a0", "b0"], ["c0", "c1"])])
     yield "chain", {"g": chain}, [{"e0": ["v", 0]}, {"e0": ["v", 1]}]
+    sigp = T.prog([T.fn("prod", ["e0"], ["a0"], emit=["sig"]), T.fn("w1", ["e0"], ["w0"], wait_for=["sig"]), T.fn("w2", ["a0"], ["v0"], wait_for=["sig"])])
+    yield "emit-producer", {"g": sigp}, [{"e0": ["v", 0]}, {"e0": ["v", 1]}]
     dia = T.diamond_ifelse(True)
     dia["nodes"][1]["behav"] = {"py": "a0[2][0][1][1] == 0"}
     yield "diamond", {"g": dia}, [{"e0": ["v", 0]}, {"e0": ["v", 1]}]
